@@ -357,3 +357,41 @@ def concrete_call(f, *args):
     vals = [realize(a) for a in args]
     with NoTracing():
         return f(*vals)
+
+
+# ---------------------------------------------------------------------------------------------------
+# class membership with a symbolic candidate code point (C06 / C07 under symbolic argument characters)
+
+class NotAClass(Exception):
+    pass
+
+
+def class_member(text, c):
+    """does the one-character pattern `text` (read by the real parser) match code point c?
+    Shorthand categories do not arise from <= 3 argument characters; if one shows up the harness reports it."""
+    t = sp.parse(text, FLAGS)
+    if len(t) != 1:
+        raise NotAClass("not a one-character pattern")
+    op, av = t[0]
+    if op is sp.LITERAL:
+        return c == av
+    if op is sp.NOT_LITERAL:
+        return c != av
+    if op is sp.ANY:
+        return True
+    if op is not sp.IN:
+        raise NotAClass(str(op))
+    neg = False
+    hit = False
+    for o, a in av:
+        if o is sp.NEGATE:
+            neg = True
+        elif o is sp.LITERAL:
+            if c == a:
+                hit = True
+        elif o is sp.RANGE:
+            if a[0] <= c and c <= a[1]:
+                hit = True
+        else:
+            raise NotAClass("category in a class built from a few characters")
+    return (not hit) if neg else hit
